@@ -205,27 +205,7 @@ class Array:
         filemode = check_accessmode(accessmode, validmodes=('r', 'r+'),
                                     makebinary=True)
         if self._memmap is None:
-            try:
-                # we must do it like this instead of providing a filename
-                # to np.mmemap, otherwise accessing temporary dirs on 
-                # windows will fail
-                self._valuesfd = open(file=self._datapath, mode=filemode)
-                d = self._arrayinfo
-                dtypedescr = arrayinfotodtype(d)
-                if product(d['shape']) == 0:  # empty file/array
-                    self._memmap = np.zeros(d['shape'], dtype=dtypedescr,
-                                            order=d['arrayorder'])
-                    # stand-in for a memmap: must reflect access mode
-                    self._memmap.flags.writeable = (memmapmode == 'r+')
-                else:
-                    self._memmap = np.memmap(filename=self._valuesfd,
-                                             mode=memmapmode,
-                                             shape=d['shape'],
-                                             dtype=dtypedescr,
-                                             order=d['arrayorder'])
-            except Exception:
-                self._close_array()
-                raise
+            self._map_array(memmapmode=memmapmode, filemode=filemode)
         # the open memory map is shared by all users of this object (nested
         # contexts, generators); whoever finishes last closes it
         self._memmapusers += 1
@@ -235,6 +215,30 @@ class Array:
             self._memmapusers -= 1
             if self._memmapusers == 0:
                 self._close_array()
+
+    def _map_array(self, memmapmode, filemode):
+        try:
+            # we must do it like this instead of providing a filename
+            # to np.mmemap, otherwise accessing temporary dirs on
+            # windows will fail
+            self._valuesfd = open(file=self._datapath, mode=filemode)
+            d = self._arrayinfo
+            dtypedescr = arrayinfotodtype(d)
+            if product(d['shape']) == 0:  # empty file/array
+                self._memmap = np.zeros(d['shape'], dtype=dtypedescr,
+                                        order=d['arrayorder'])
+                # stand-in for a memmap: must reflect access mode
+                self._memmap.flags.writeable = (memmapmode == 'r+')
+            else:
+                self._memmap = np.memmap(filename=self._valuesfd,
+                                         mode=memmapmode,
+                                         shape=d['shape'],
+                                         dtype=dtypedescr,
+                                         order=d['arrayorder'])
+            self._memmapmodes = (memmapmode, filemode)
+        except Exception:
+            self._close_array()
+            raise
 
     def _close_array(self):
         if hasattr(self._memmap, '_mmap'):
@@ -363,6 +367,12 @@ class Array:
         self._size = product(self._shape)
         self._update_arrayinfo(shape=self._shape)
         self._update_readmetxt()
+        if self._memmap is not None:
+            # the array is open (open_array context): its users must see
+            # the new length. The old map is not closed here, a generator
+            # may still be reading from it
+            self._memmap, self._valuesfd = None, None
+            self._map_array(*self._memmapmodes)
 
     def _update_readmetxt(self):
         txt = readcodetxt(self)
